@@ -60,8 +60,13 @@ def do_division(l, r):
 def fmt_dec(v, dsep=",", tsep=None):
     """a decimal literal for a python float that has a short exact decimal expansion"""
     s = repr(float(v))
-    if "e" in s or "E" in s or "inf" in s or "nan" in s:
+    if "inf" in s or "nan" in s:
         raise ValueError("unrenderable literal %r" % v)
+    if "e" in s or "E" in s:
+        import decimal
+        s = format(decimal.Decimal(s), "f")           # 1e-16 -> 0.0000000000000001 (exactly the shortest digits)
+        if "." not in s:
+            s += ".0"
     if s.endswith(".0"):
         s = s[:-2]
     neg = s.startswith("-")
